@@ -99,4 +99,3 @@ func genPrefix(t *rapid.T) Prefix {
 	}
 	return c
 }
-
